@@ -35,6 +35,8 @@ ASSUMPTIONS = [
 MIN_NONTRIVIAL = 200
 REQUIRED_COUNTERS = ["babel_templates", "lingua_templates", "messages_planted", "decoys_planted", "translator_comments_attached", "translator_comments_detached"]
 REQUIRED_COUNTERS += ["hash_seed_children"]
+RULE += " templates that declare a legacy encoding themselves, extracted by Babel with an encoding option that says utf-8."
+REQUIRED_COUNTERS += ["declared_encoding_against_option"]
 
 _st = {}
 
@@ -350,7 +352,11 @@ def run_template(r, nl, enc, res):
     # Babel
     try:
         data = text.encode(codec)
-        found = list(_st["babel"].extract(io.BytesIO(data), ["_", "gettext", "ngettext"], ["TRANSLATORS:"], {} if magic else {"encoding": codec}))
+        # (a template that declares its encoding itself is read by that declaration, whatever the option says)
+        opts = ({} if len(text) % 2 else {"encoding": "utf-8"}) if magic else {"encoding": codec}
+        if magic and opts:
+            res.count("declared_encoding_against_option")
+        found = list(_st["babel"].extract(io.BytesIO(data), ["_", "gettext", "ngettext"], ["TRANSLATORS:"], opts))
         res.count("babel_templates")
         compare(found, d, "babel", res, rc, text)
     except Exception as e:
